@@ -95,6 +95,23 @@ Theorem C09_extra_byte_interrupted_transparent : forall f1 f2 c1 c2 buf,
 Proof. exact read_extra_sim. Qed.
 Print Assumptions C09_extra_byte_interrupted_transparent.
 
+(* the loop of read_line that assembles a UTF-16 line from several read_until
+   calls (a byte 0x0A inside another code unit does not end the line): a
+   scheduled failure is reached or the round ends with it still ahead, and any
+   number of Interrupted anywhere in it is transparent *)
+Theorem C09_line_loop_failure_reached : forall k n fuel e c buf,
+  will_fail k (second c) -> (cmsr c < fuel)%nat -> (cmsr c < n)%nat ->
+  read_line_loop n fuel e c buf = IoErr k \/
+  exists buf' c', read_line_loop n fuel e c buf = IoDone (buf', c') /\ will_fail k (second c') /\ buf' <> [].
+Proof. exact read_line_loop_will_fail. Qed.
+Print Assumptions C09_line_loop_failure_reached.
+
+Theorem C09_line_loop_interrupted_transparent : forall n1 n2 f1 f2 e c1 c2 buf,
+  csim c1 c2 -> (cmsr c1 < f1)%nat -> (cmsr c2 < f2)%nat -> (cmsr c1 < n1)%nat -> (cmsr c2 < n2)%nat ->
+  io_rel cpair_sim (read_line_loop n1 f1 e c1 buf) (read_line_loop n2 f2 e c2 buf).
+Proof. exact read_line_loop_sim. Qed.
+Print Assumptions C09_line_loop_interrupted_transparent.
+
 (* BOM sniffing (read_bom collects up to three bytes over several chunks):
    while it still lacks bytes a hard failure is returned and Interrupted is
    retried, one source event at a time; for any number of Interrupted and any
@@ -195,6 +212,15 @@ Example C09_bom_sniffing_events :
   show (read_all_lines (mk_reader small_file [Interrupted; Chunk 1; Interrupted; Chunk 1; Interrupted; Chunk 100])) = show small_lines /\
   show (read_all_lines (mk_reader (lit "ab") [Chunk 2; Fail WouldBlock])) = [1; 5].
 Proof. exact bom_sniffing_events. Qed.
+
+(* UTF-16BE `<U+4E0A>x` LF: the reader fails / is interrupted right after the
+   byte 0x0A of U+4E0A, where read_line goes round its loop *)
+Example C09_inside_a_unit_events :
+  show (read_all_lines (mk_reader (bom_be ++ [78; 10; 0; 120; 0; 10]) [Chunk 4; Fail TimedOut; Chunk 9])) = [1; 4] /\
+  show (read_all_lines (mk_reader (bom_be ++ [78; 10; 0; 120; 0; 10]) [Chunk 4; Interrupted; Interrupted; Chunk 9])) = show (IoDone [[19978; 120]]) /\
+  show (read_all_lines (mk_reader (bom_le ++ [10; 78; 120; 0; 10; 0]) [Chunk 3; Interrupted; Chunk 1; Fail Other])) = [1; 1] /\
+  show (read_all_lines (mk_reader (bom_le ++ [10; 78; 120; 0; 10; 0]) [Chunk 3; Interrupted; Chunk 1; Interrupted; Chunk 9])) = show (IoDone [[19978; 120]]).
+Proof. vm_compute. repeat split. Qed.
 
 Example C09_nonvacuous_write :
   (* 5 bytes in two chunks; the writer takes 2, is interrupted, takes 1, then fails *)
